@@ -57,13 +57,17 @@ Definition rs_get (n : N) (s : rstore) : option hdr :=
 Inductive shim_res :=
 | ShimEmpty                 (* len(headers) == 0: return nil *)
 | ShimSkip                  (* headers[0].Height() < head.Height(): no check, cache untouched, straight to Store.Append *)
-| ShimOk (nh : hdr)         (* every header adjacent to its predecessor: cache := nh, then Store.Append *)
+| ShimOk (nh : hdr)         (* every header is the rolling head again or adjacent to it: cache := nh, then Store.Append *)
 | ShimNonAdj.               (* errNonAdjacent, nothing written *)
 
+(** the loop over the headers with the rolling [head]: a header that IS the
+    current head (same height, same hash) is skipped; any other must be head+1 *)
 Fixpoint shim_walk (cur : hdr) (hs : list hdr) : option hdr :=
   match hs with
   | [] => Some cur
-  | h :: r => if h_height h =? wrap64 (h_height cur + 1) then shim_walk h r else None
+  | h :: r =>
+    if (h_height h =? h_height cur) && (h_id h =? h_id cur) then shim_walk cur r
+    else if h_height h =? wrap64 (h_height cur + 1) then shim_walk h r else None
   end.
 
 Definition shim_check (c : hdr) (hs : list hdr) : shim_res :=
@@ -113,7 +117,7 @@ Inductive lpc :=
 (** stages of setLocalHead(x) *)
 Inductive slst :=
 | SL0   (* syncStore.Append(x): load cache, shim check *)
-| SL1   (* cache := x *)
+| SL1 (nh : hdr)  (* cache := nh (x, or the old head when x was the head itself) *)
 | SL2   (* Store.Append(x) *)
 | SL3   (* store.Head(): load cache, compare with x *)
 | SL4   (* pending.Add(x) *)
@@ -316,11 +320,11 @@ Definition t_body (i : nat) (t : tpc) (c : cfg) : cfg :=
     match st with
     | SL0 =>
       match shim_check (c_cache c) [x] with
-      | ShimOk _ => set_thr i (TRun mu res x SL1 rest) c
+      | ShimOk nh => set_thr i (TRun mu res x (SL1 nh) rest) c
       | ShimSkip => set_thr i (TRun mu res x SL2 rest) c
       | _ => set_thr i (TRun mu res x SL3 rest) c          (* errNonAdjacent is ignored *)
       end
-    | SL1 => set_thr i (TRun mu res x SL2 rest) (c <| c_cache := x |>)
+    | SL1 nh => set_thr i (TRun mu res x SL2 rest) (c <| c_cache := nh |>)
     | SL2 => set_thr i (TRun mu res x SL3 rest) (c <| c_store ::= rs_append [x] |>)
     | SL3 =>
       if h_height x <=? h_height (c_cache c)
